@@ -2,6 +2,7 @@ package c05
 
 import (
 	"context"
+	"encoding/json"
 	"fmt"
 	"math/big"
 	"os"
@@ -11,10 +12,15 @@ import (
 	"time"
 
 	sdkmath "cosmossdk.io/math"
+	storetypes "cosmossdk.io/store/types"
+	abci "github.com/cometbft/cometbft/abci/types"
+	"github.com/cosmos/cosmos-sdk/codec"
 	sdk "github.com/cosmos/cosmos-sdk/types"
 	banktypes "github.com/cosmos/cosmos-sdk/x/bank/types"
+	distrtypes "github.com/cosmos/cosmos-sdk/x/distribution/types"
 
 	coinswaptypes "mods.irisnet.org/modules/coinswap/types"
+	farmkeeper "mods.irisnet.org/modules/farm/keeper"
 	farmtypes "mods.irisnet.org/modules/farm/types"
 
 	"verifharness/chain"
@@ -81,14 +87,18 @@ type machine struct {
 	// community pool (distribution FeePool.CommunityPool), integer amounts per denom; only this machine moves it
 	// (the distribution/mint blockers do not run)
 	cpool     map[string]*big.Int
+	probedMsg bool
+	pendingInject *mpool
 	hasEscrow bool // the app registers farm's escrow_collector module account (needed by the proposal handlers)
 	nextProp  uint64
 
 	avoidZeroStake, avoidZeroRPS, avoidRestartAtEnd bool
+	lowCat                                          bool
 
 	target int // generator only: pool the next operation must aim at (-1 none)
 	// generator only: many-pools plan
-	planDrawn, burstPlan, bursted bool
+	planDrawn, burstPlan, bursted, cpoolPlan bool
+	cpoolDone                                int
 
 	avoidF4, avoidF14, strict, unsorted bool
 
@@ -146,7 +156,12 @@ func (m *machine) accrue(p *mpool, h int64) (map[string]*big.Int, bool) {
 func newC05() pbt.Machine[fop] { return newMachine("C05") }
 func newC06() pbt.Machine[fop] { return newMachine("C06") }
 
-func (m *machine) user(i int) chain.User { return m.c.E.Users[i%len(m.c.E.Users)] }
+func (m *machine) user(i int) chain.User {
+	if i < 0 {
+		i = 0
+	}
+	return m.c.E.Users[i%len(m.c.E.Users)]
+}
 
 func coin(d string, a *big.Int) sdk.Coin { return sdk.Coin{Denom: d, Amount: gen.ToInt(a)} }
 
@@ -1008,7 +1023,35 @@ func (m *machine) applyDestroy(o fop) error {
 
 // applyBlock: end block of the current height (pools whose end height is now hand back their budget), then the
 // next height begins.
-func (m *machine) applyBlock() error {
+func (m *machine) applyBlock() error { return m.applyBlockOpt(false) }
+
+// reimportHazard names the known genesis-validation defect the current state would run into (empty = none).
+func (m *machine) reimportHazard() string {
+	for _, p := range m.pools {
+		for _, k := range p.farmerIdx() {
+			if f := p.farmers[k]; f.exists && f.stake.Sign() == 0 {
+				return "reimport-zero-stake-record"
+			}
+		}
+	}
+	for _, p := range m.pools {
+		stored, ok := m.c.E.K.Farm.GetPool(m.c.Ctx, p.id)
+		if !ok || stored.EndHeight == stored.LastHeightDistrRewards {
+			continue
+		}
+		for _, r := range m.c.E.K.Farm.GetRewardRules(m.c.Ctx, p.id) {
+			if !r.RewardPerShare.IsPositive() && !r.RemainingReward.Equal(r.TotalReward) {
+				return "reimport-zero-reward-per-share"
+			}
+		}
+	}
+	return ""
+}
+
+// applyBlockOpt: end block of the current height, next height; with restart the farm module is exported, its
+// store wiped and the export imported at the new height before its begin block - what a chain restart from an
+// exported genesis with initial height h+1 does to this module (bank and the other modules keep their state).
+func (m *machine) applyBlockOpt(restart bool) error {
 	h := m.c.Height()
 	before := m.c.Snapshot()
 	e := chain.NewExpect()
@@ -1026,13 +1069,385 @@ func (m *machine) applyBlock() error {
 			m.class("pool-ended")
 		}
 	}
-	end, begin := m.c.NextBlock(5*time.Second, nil)
+	end := m.c.EndBlock()
+	m.c.Advance(5*time.Second, nil)
+	if restart {
+		hz := m.reimportHazard()
+		skip := (hz == "reimport-zero-stake-record" && m.avoidZeroStake) || (hz == "reimport-zero-reward-per-share" && m.avoidZeroRPS)
+		atEnd := false
+		for _, p := range m.pools {
+			if !p.refunded && p.end == h+1 {
+				atEnd = true
+			}
+		}
+		inject := m.pendingInject
+		m.pendingInject = nil
+		if inject != nil {
+			// the genesis that is imported additionally contains a community pool farm starting at the new height
+			viaSetters := skip || (atEnd && m.avoidRestartAtEnd)
+			if err := m.injectPool(inject, viaSetters, hz); err != nil {
+				return err
+			}
+			m.pools = append(m.pools, inject)
+			if len(m.pools) >= 10 {
+				m.class("pools>=10")
+			}
+			if viaSetters {
+				skip = true
+			}
+		}
+		switch {
+		case skip:
+			m.class("skipped:" + m.sig(hz))
+		case atEnd && m.avoidRestartAtEnd:
+			m.class("skipped:" + m.sig("restart-at-end-height"))
+		default:
+			var stage string
+			var err error
+			if inject == nil {
+				_, stage, err = m.c.Reimport(farmtypes.ModuleName)
+			}
+			if err != nil {
+				what := "reimport-" + stage
+				if hz != "" && stage == "import" {
+					what = hz
+				}
+				return pbt.Failf(m.sig(what), "farm genesis round trip at h=%d (%d pools): %v", h+1, len(m.pools), err)
+			}
+			m.class("restart")
+			live, staked, rps := false, false, false
+			for _, p := range m.pools {
+				if !p.refunded {
+					live = true
+					if p.total.Sign() > 0 {
+						staked = true
+						for _, r := range p.rules {
+							if r.released.Sign() > 0 {
+								rps = true
+							}
+						}
+					}
+				}
+				if p.creator == communityCreator && !p.refunded {
+					m.class("restart-with-community-pool-farm")
+				}
+			}
+			if live {
+				m.class("restart-with-live-pool")
+			}
+			if staked && rps {
+				m.class("restart-with-accrued-rewards")
+			}
+			if atEnd {
+				m.class("restart-at-end-height")
+			}
+			// a pool whose end height is the first height of the restarted chain must still be running
+			for _, p := range m.pools {
+				if p.refunded || p.end != h+1 {
+					continue
+				}
+				resp, err := m.c.E.K.Farm.FarmPool(context.Context(m.c.Ctx), &farmtypes.QueryFarmPoolRequest{Id: p.id})
+				if err == nil && resp.Pool.Expired && m.prop == "C06" {
+					return pbt.Failf("C06/restart-at-end-height", "pool %s ends at height %d, the first height after the farm genesis was imported: it is reported expired and is not in the expiry queue (its remaining budget will never be handed back)", p.id, h+1)
+				}
+			}
+		}
+	}
+	begin := m.c.BeginBlock()
 	if end.Outcome != chain.OK || begin.Outcome != chain.OK {
 		return pbt.Failf(m.sig("block-hook"), "h=%d end=%v begin=%v", h, end, begin)
 	}
 	if m.prop == "C06" {
 		return m.checkDelta("block", before, e)
 	}
+	return nil
+}
+
+// applyParams: MsgUpdateParams by the authority (or by somebody else: must be refused).
+func (m *machine) applyParams(o fop) error {
+	fee := parseAmt(o.Fee)
+	taxDec, derr := sdkmath.LegacyNewDecFromStr(o.Tax)
+	if derr != nil || o.FeeD == "" || o.MaxRD < 0 {
+		return nil
+	}
+	auth := m.c.E.Gov.String()
+	if o.Who != 0 {
+		auth = m.user(o.Who).Addr.String()
+	}
+	valid := o.Who == 0 && taxDec.IsPositive() && taxDec.LT(sdkmath.LegacyOneDec())
+	res := m.c.Deliver(&farmtypes.MsgUpdateParams{Authority: auth, Params: farmtypes.Params{
+		PoolCreationFee: coin(o.FeeD, fee), MaxRewardCategories: uint32(o.MaxRD), TaxRate: taxDec}})
+	if res.Outcome == chain.Panicked {
+		return pbt.Failf(m.sig("params-panicked"), "%+v: %v", o, res)
+	}
+	if !valid {
+		if res.Outcome == chain.OK {
+			return pbt.Failf(m.sig("invalid-params-accepted"), "%+v", o)
+		}
+		m.class("params-rejected")
+		return nil
+	}
+	if res.Outcome != chain.OK {
+		return m.soft("params", res)
+	}
+	m.fee, m.feeD, m.maxRD = fee, o.FeeD, o.MaxRD
+	m.tax = taxOf(fee, taxDec.String())
+	m.class("params-changed")
+	prod := new(big.Rat)
+	if tr, ok := new(big.Rat).SetString(taxDec.String()); ok {
+		prod.Mul(new(big.Rat).SetInt(fee), tr)
+	}
+	if !prod.IsInt() {
+		m.class("params-fractional-tax")
+	}
+	for _, p := range m.pools {
+		if !p.refunded && len(p.rules) > o.MaxRD {
+			m.class("params-max-categories-below-live-pool")
+			m.lowCat = true
+		}
+	}
+	return nil
+}
+
+// applyCommunityPool creates a farm pool whose creator is the community pool (distribution module account).
+// Denoms[0] is applied for out of the community pool; with Edit set, Denoms[1] is the proposer's (U1) self bond.
+//   - route "handler" / "refund" (needs farm's escrow_collector module account, registered by the verif build tag):
+//     the escrow step of MsgCreatePoolWithCommunityPool (FeePool debit, distribution -> escrow_collector, self bond ->
+//     escrow_collector, escrow info) followed by what gov does for a passed proposal (the legacy content handler =
+//     HandleCreateFarmProposal) or for a failed one (gov hook -> refund of the escrow). The message itself is only
+//     probed on a branch: the depinject wiring of the farm module registers neither its legacy proposal route nor its
+//     gov hooks, so gov refuses the proposal ("no handler exists for proposal type").
+//   - route "genesis" (fallback without the account): the budget leaves the community pool (FeePool debited, coins to
+//     the farm account) and the pool is added to the farm module's exported genesis, which is imported again.
+func (m *machine) applyCommunityPool(o fop) error {
+	if len(o.Denoms) == 0 || len(o.Rates) != len(o.Denoms) || len(o.Totals) != len(o.Denoms) || len(m.lpts) == 0 || len(o.Denoms) > 2 {
+		return nil
+	}
+	var rates, totals []*big.Int
+	for i := range o.Denoms {
+		rates = append(rates, parseAmt(o.Rates[i]))
+		totals = append(totals, parseAmt(o.Totals[i]))
+		if rates[i].Sign() <= 0 || totals[i].Cmp(rates[i]) < 0 || !new(big.Int).Quo(totals[i], rates[i]).IsInt64() {
+			return nil
+		}
+	}
+	rc, ok1 := sortedCoins(o.Denoms, rates)
+	tc, ok2 := sortedCoins(o.Denoms, totals)
+	if !ok1 || !ok2 {
+		return nil
+	}
+	ac, sc := tc, sdk.Coins(nil) // applied out of the community pool / self bond
+	if len(o.Denoms) == 2 && o.Edit {
+		ac = sdk.Coins{coin(o.Denoms[0], totals[0])}
+		sc = sdk.Coins{coin(o.Denoms[1], totals[1])}
+	}
+	route := o.Route
+	if route != "genesis" && !m.hasEscrow {
+		m.class("skipped:escrow-collector-not-registered")
+		route = "genesis"
+	}
+	c := m.c
+	u0, u1 := m.user(0), m.user(1)
+	h := c.Height()
+	lpt := m.lpts[o.Lpt%len(m.lpts)]
+	before := c.Snapshot()
+	bump := func(cs sdk.Coins, sign int64) {
+		for _, co := range cs {
+			if _, ok := m.cpool[co.Denom]; !ok {
+				m.cpool[co.Denom] = new(big.Int)
+			}
+			m.cpool[co.Denom].Add(m.cpool[co.Denom], new(big.Int).Mul(co.Amount.BigInt(), bi(sign)))
+		}
+	}
+	// a donor funds the community pool with what will be applied for
+	if r := c.Deliver(&distrtypes.MsgFundCommunityPool{Amount: ac, Depositor: u0.Addr.String()}); r.Outcome != chain.OK {
+		return pbt.Failf("harness/fund-community-pool", "%v", r)
+	}
+	bump(ac, 1)
+	if m.hasEscrow && !m.probedMsg {
+		// the message route, on a branch: refused by gov for lack of a legacy route in this application
+		m.probedMsg = true
+		r := c.Branch().Deliver(&farmtypes.MsgCreatePoolWithCommunityPool{
+			Content:        farmtypes.CommunityPoolCreateFarmProposal{Title: "t", Description: "d", PoolDescription: "p", LptDenom: lpt, RewardPerBlock: rc, FundApplied: ac, FundSelfBond: sc},
+			InitialDeposit: sdk.Coins{coin("stake", bi(1000))}, Proposer: u1.Addr.String()})
+		if r.Outcome == chain.OK {
+			m.class("community-pool-msg-accepted")
+		} else {
+			m.class("community-pool-msg-refused")
+		}
+	}
+	e := chain.NewExpect()
+	debit := func() error {
+		fp, err := c.E.App.DistrKeeper.FeePool.Get(c.Ctx)
+		if err != nil {
+			return err
+		}
+		rest, neg := fp.CommunityPool.SafeSub(sdk.NewDecCoinsFromCoins(ac...))
+		if neg {
+			return fmt.Errorf("community pool short")
+		}
+		fp.CommunityPool = rest
+		bump(ac, -1)
+		return c.E.App.DistrKeeper.FeePool.Set(c.Ctx, fp)
+	}
+	newPool := func() *mpool {
+		p := &mpool{id: poolID(len(m.pools)), creator: communityCreator, lpt: lpt, start: h, editable: false, total: new(big.Int), farmers: map[int]*mfarmer{}}
+		var av, rt []*big.Int
+		for _, co := range tc {
+			p.rules = append(p.rules, &mrule{denom: co.Denom, total: co.Amount.BigInt(), remaining: co.Amount.BigInt(), rate: rc.AmountOf(co.Denom).BigInt(), released: new(big.Int)})
+			av = append(av, co.Amount.BigInt())
+			rt = append(rt, rc.AmountOf(co.Denom).BigInt())
+		}
+		p.end, _ = endFor(h, av, rt)
+		return p
+	}
+	created := func(p *mpool) {
+		for _, co := range ac {
+			e.Move(u0.Addr, farmAddr, co.Denom, co.Amount.BigInt())
+		}
+		for _, co := range sc {
+			e.Move(u1.Addr, farmAddr, co.Denom, co.Amount.BigInt())
+		}
+		m.pools = append(m.pools, p)
+		if len(m.pools) >= 10 {
+			m.class("pools>=10")
+		}
+		if len(sc) > 0 {
+			m.class("community-pool-farm-with-self-bond")
+		}
+	}
+	if err := debit(); err != nil {
+		return pbt.Failf("harness/community-pool", "%v", err)
+	}
+	switch route {
+	case "genesis":
+		if err := c.E.App.BankKeeper.SendCoinsFromModuleToModule(c.Ctx, "distribution", farmtypes.ModuleName, ac); err != nil {
+			return pbt.Failf("harness/community-pool", "%v", err)
+		}
+		if len(sc) > 0 {
+			if err := c.E.App.BankKeeper.SendCoinsFromAccountToModule(c.Ctx, u1.Addr, farmtypes.ModuleName, sc); err != nil {
+				return pbt.Failf("harness/community-pool", "%v", err)
+			}
+		}
+		// the pool appears with the next block: the chain restarts from a genesis that contains it
+		p := newPool()
+		p.start++
+		p.end++
+		for _, co := range ac {
+			e.Move(u0.Addr, farmAddr, co.Denom, co.Amount.BigInt())
+		}
+		for _, co := range sc {
+			e.Move(u1.Addr, farmAddr, co.Denom, co.Amount.BigInt())
+		}
+		if len(sc) > 0 {
+			m.class("community-pool-farm-with-self-bond")
+		}
+		m.class("community-pool-farm-by-genesis")
+		if m.prop == "C06" {
+			if err := m.checkDelta("cpool", before, e); err != nil {
+				return err
+			}
+		}
+		m.pendingInject = p
+		return m.applyBlockOpt(true)
+	default:
+		if err := c.E.App.BankKeeper.SendCoinsFromModuleToModule(c.Ctx, "distribution", farmtypes.EscrowCollector, ac); err != nil {
+			return pbt.Failf("harness/community-pool", "%v", err)
+		}
+		if len(sc) > 0 {
+			if err := c.E.App.BankKeeper.SendCoinsFromAccountToModule(c.Ctx, u1.Addr, farmtypes.EscrowCollector, sc); err != nil {
+				return pbt.Failf("harness/community-pool", "%v", err)
+			}
+		}
+		m.nextProp++
+		c.E.K.Farm.SetEscrowInfo(c.Ctx, farmtypes.EscrowInfo{Proposer: u1.Addr.String(), FundApplied: ac, FundSelfBond: sc, ProposalId: m.nextProp})
+		if route == "handler" {
+			prop := &farmtypes.CommunityPoolCreateFarmProposal{Title: "t", Description: "d", PoolDescription: "p", LptDenom: lpt, RewardPerBlock: rc, FundApplied: ac, FundSelfBond: sc}
+			if err := prop.ValidateBasic(); err != nil {
+				return pbt.Failf("harness/community-pool", "proposal invalid: %v", err)
+			}
+			cctx, write := c.Ctx.CacheContext()
+			if err := c.E.K.Farm.HandleCreateFarmProposal(cctx, prop); err != nil {
+				return pbt.Failf(m.sig("community-pool-proposal-failed"), "h=%d %v", h, err)
+			}
+			write()
+			created(newPool())
+			m.class("community-pool-farm-by-proposal")
+		} else {
+			// the proposal fails (minimum deposit not reached / voted down): gov calls the farm hook, which hands the
+			// escrow back: self bond to the proposer, the applied funds to the community pool
+			farmkeeper.NewGovHook(c.E.K.Farm).AfterProposalFailedMinDeposit(c.Ctx, m.nextProp)
+			for _, co := range ac {
+				e.Move(u0.Addr, distrAddr, co.Denom, co.Amount.BigInt())
+			}
+			bump(ac, 1)
+			if _, still := c.E.K.Farm.GetEscrowInfo(c.Ctx, m.nextProp); still && m.prop == "C06" {
+				return pbt.Failf("C06/escrow-not-refunded", "escrow info of the failed proposal %d still present", m.nextProp)
+			}
+			m.class("community-pool-escrow-refunded")
+		}
+	}
+	if m.prop == "C06" {
+		return m.checkDelta("cpool", before, e)
+	}
+	return nil
+}
+
+// injectPool appends a pool to the farm module's exported genesis and imports the result.
+func (m *machine) injectPool(p *mpool, viaSetters bool, hz string) (err error) {
+	c := m.c
+	defer func() {
+		if r := recover(); r != nil {
+			what := "reimport-import"
+			if hz != "" {
+				what = hz
+			}
+			err = pbt.Failf(m.sig(what), "farm genesis with an added community pool farm refused: %v", r)
+		}
+	}()
+	if viaSetters {
+		// the round trip itself would fail for a known reason: write the pool with the keeper's setters instead
+		fp := farmtypes.FarmPool{Id: p.id, Creator: distrAddr.String(), Description: "p", StartHeight: p.start, EndHeight: p.end,
+			TotalLptLocked: sdk.NewCoin(p.lpt, sdkmath.ZeroInt())}
+		for _, r := range p.rules {
+			c.E.K.Farm.SetRewardRule(c.Ctx, p.id, farmtypes.RewardRule{Reward: r.denom, TotalReward: gen.ToInt(r.total), RemainingReward: gen.ToInt(r.total),
+				RewardPerBlock: gen.ToInt(r.rate), RewardPerShare: sdkmath.LegacyZeroDec()})
+		}
+		c.E.K.Farm.SetPool(c.Ctx, fp)
+		c.E.K.Farm.EnqueueActivePool(c.Ctx, p.id, p.end)
+		c.E.K.Farm.SetSequence(c.Ctx, c.E.K.Farm.GetSequence(c.Ctx)+1)
+		return nil
+	}
+	mod := c.E.App.ModuleManager.Modules[farmtypes.ModuleName].(interface {
+		InitGenesis(sdk.Context, codec.JSONCodec, json.RawMessage) []abci.ValidatorUpdate
+		ExportGenesis(sdk.Context, codec.JSONCodec) json.RawMessage
+	})
+	cdc := c.E.App.AppCodec()
+	var gs farmtypes.GenesisState
+	cdc.MustUnmarshalJSON(mod.ExportGenesis(c.Ctx, cdc), &gs)
+	fp := farmtypes.FarmPool{Id: p.id, Creator: distrAddr.String(), Description: "p", StartHeight: p.start, EndHeight: p.end,
+		TotalLptLocked: sdk.NewCoin(p.lpt, sdkmath.ZeroInt())}
+	for _, r := range p.rules {
+		fp.Rules = append(fp.Rules, farmtypes.RewardRule{Reward: r.denom, TotalReward: gen.ToInt(r.total), RemainingReward: gen.ToInt(r.total),
+			RewardPerBlock: gen.ToInt(r.rate), RewardPerShare: sdkmath.LegacyZeroDec()})
+	}
+	gs.Pools = append(gs.Pools, fp)
+	gs.Sequence++
+	for _, k := range c.E.App.GetStoreKeys() {
+		if kv, ok := k.(*storetypes.KVStoreKey); ok && kv.Name() == farmtypes.StoreKey {
+			st := c.Ctx.KVStore(kv)
+			var keys [][]byte
+			it := st.Iterator(nil, nil)
+			for ; it.Valid(); it.Next() {
+				keys = append(keys, append([]byte{}, it.Key()...))
+			}
+			it.Close()
+			for _, key := range keys {
+				st.Delete(key)
+			}
+		}
+	}
+	mod.InitGenesis(c.Ctx, cdc, cdc.MustMarshalJSON(&gs))
 	return nil
 }
 
@@ -1182,6 +1597,29 @@ func (m *machine) checkAll() error {
 				if err := m.tolerance(p, k, f, pend); err != nil {
 					return err
 				}
+			}
+		}
+	}
+	if m.prop == "C06" {
+		// community pool record: credited with the remaining budget of community pool farms, exactly once
+		fp, err := c.E.App.DistrKeeper.FeePool.Get(c.Ctx)
+		if err != nil {
+			return pbt.Failf("harness/fee-pool", "%v", err)
+		}
+		seen := map[string]bool{}
+		for _, dc := range fp.CommunityPool {
+			seen[dc.Denom] = true
+			w := m.cpool[dc.Denom]
+			if w == nil {
+				w = new(big.Int)
+			}
+			if !dc.Amount.IsInteger() || dc.Amount.TruncateInt().BigInt().Cmp(w) != 0 {
+				return pbt.Failf("C06/community-pool-record", "h=%d community pool holds %s%s, expected %s (donations - budgets applied for + budgets returned)", h, dc.Amount, dc.Denom, w)
+			}
+		}
+		for d, w := range m.cpool {
+			if !seen[d] && w.Sign() != 0 {
+				return pbt.Failf("C06/community-pool-record", "h=%d community pool holds no %s, expected %s", h, d, w)
 			}
 		}
 	}
